@@ -11,7 +11,14 @@ package index_test
 //   - once with a snapshot of the index directory before every mutating
 //     filesystem operation (= what kill -9 before that system call leaves), and
 //   - once more per rename / remove / temp-file creation with that one operation
-//     failing with EIO.
+//     failing with EIO (quick tier: of the temp-file creations the first and the
+//     last one per file class, i.e. also the shard that Finish itself flushes).
+// A new build may also be one that cannot succeed without any injected fault:
+// one of its documents names a branch the repository does not have, so the
+// shard holding it fails where it is built (inside Add or Finish when serial, in
+// a background goroutine when Parallelism > 1) after earlier shards were
+// written successfully. Such a run must report the error and every crash point
+// and the final state must show the old index.
 // Every snapshot and every final state is loaded the way the web server loads it
 // (search.NewDirectorySearcher) and the repository's signature is compared with
 // the signature of the old and of the new index.
@@ -169,6 +176,9 @@ const (
 	c12Repo     = "github.com/verif/c12"
 	c12RepoID   = 7
 	c12ShardMax = 400
+	// c12Ghost is a branch no generated repository has: a document naming it
+	// cannot be indexed (ShardBuilder.Add: "no branch found").
+	c12Ghost = "ghost"
 )
 
 type c12Doc struct {
@@ -210,7 +220,10 @@ type c12Case struct {
 	OldSidecars   bool
 	OldTombstones []string
 
-	NewGroups   [][]c12Doc // documents of the new build, one group per new shard
+	// NewGroups: documents of the new build, one group per new shard. A document
+	// whose Branches name a branch that is not in Branches makes the build fail
+	// in the shard of its group (see c12FailingGroup).
+	NewGroups   [][]c12Doc
 	NewVersions []string
 	NewMeta     string
 	Tombstones  []string // delta/sidecar: paths marked as changed or removed
@@ -279,7 +292,7 @@ func c12Gen(rt *rapid.T) c12Case {
 	if g.Bool(50, "twobranches") {
 		c.Branches = append(c.Branches, "dev")
 	}
-	c.Parallelism = kit.Pick(g, []int{1, 1, 1, 4}, "par")
+	c.Parallelism = kit.Pick(g, []int{1, 1, 1, 2, 4}, "par")
 	nOld := g.Int(1, 3, "oldshards")
 	if c.Kind == "compound" {
 		nOld = 1 // the repository is one member of one compound shard
@@ -333,6 +346,21 @@ func c12Gen(rt *rapid.T) c12Case {
 	case "sidecar":
 		if g.Bool(60, "deleted") {
 			c.Tombstones = []string{kit.Pick(g, oldNames, "deletedname")}
+		}
+	}
+	// A build that cannot succeed: one document of one new shard names a branch
+	// the repository does not have (in addition to or instead of its own). The
+	// last shard is preferred: it is the one Finish flushes itself.
+	if len(c.NewGroups) > 0 && g.Bool(25, "ghostbranch") {
+		gi := len(c.NewGroups) - 1
+		if g.Bool(40, "ghostanyshard") {
+			gi = g.Int(0, len(c.NewGroups)-1, "ghostshard")
+		}
+		d := &c.NewGroups[gi][g.Int(0, len(c.NewGroups[gi])-1, "ghostdoc")]
+		if g.Bool(50, "ghostonly") {
+			d.Branches = []string{c12Ghost}
+		} else {
+			d.Branches = append(d.Branches, c12Ghost)
 		}
 	}
 	if c.Kind == "compound" {
@@ -469,6 +497,26 @@ func c12RunNew(dir string, c *c12Case) error {
 		o.ShardMerging = true
 	}
 	return c12Build(o, c.NewGroups, c.Tombstones)
+}
+
+// c12FailingGroup returns the index of the first new shard that cannot be built
+// because one of its documents names a branch the repository does not have
+// (-1: the build can succeed).
+func c12FailingGroup(c *c12Case) int {
+	has := map[string]bool{}
+	for _, b := range c.Branches {
+		has[b] = true
+	}
+	for i, grp := range c.NewGroups {
+		for _, d := range grp {
+			for _, b := range d.Branches {
+				if !has[b] {
+					return i
+				}
+			}
+		}
+	}
+	return -1
 }
 
 // ---------------------------------------------------------------------------
@@ -772,6 +820,11 @@ func runC12(rec *kit.Recorder, active map[string]bool, c c12Case) error {
 	if c.OldSidecars {
 		j.labels = append(j.labels, "old-has-sidecars")
 	}
+	if fg := c12FailingGroup(&c); fg >= 0 {
+		j.failingBuild(root, initial, fg)
+		rec.Sample(c, j.nt)
+		return faultsConclude(rec, active, c, j.ds)
+	}
 
 	// ---- reference run: snapshot before every mutating operation
 	work, err := c12Copy(root, initial, "ref")
@@ -869,7 +922,27 @@ func runC12(rec *kit.Recorder, active map[string]bool, c c12Case) error {
 	}
 
 	// ---- every rename / remove fails once; temp-file creations, too (quick
-	// tier: only the first one per file class, a build costs ~0.1 s)
+	// tier: only the first one per file class and the one with the greatest
+	// name, a build costs ~0.1 s). The greatest name of the shard class is the
+	// last shard of the build: unless its last document is big, that is the
+	// shard Finish itself flushes, i.e. with Parallelism > 1 the shard whose
+	// error is recorded by a background goroutine while Finish is waiting, after
+	// earlier shards have been written successfully.
+	classOf := func(op fsx.Op) string {
+		return op.Kind + filepath.Ext(strings.TrimSuffix(fsx.NormBase(op.Path), ".*.tmp"))
+	}
+	lastOfClass := map[string]string{} // class -> greatest point identity
+	for _, pt := range pts {
+		switch pt.Op.Kind {
+		case fsx.KCreateTemp, fsx.KCreate, fsx.KOpenFile, fsx.KWriteFile:
+			if pt.Op.Mutating && !pt.Op.Failed {
+				id := fmt.Sprintf("%s#%06d", pt.ID, pt.Nth)
+				if cl := classOf(pt.Op); id > lastOfClass[cl] {
+					lastOfClass[cl] = id
+				}
+			}
+		}
+	}
 	seenClass := map[string]bool{}
 	for _, pt := range pts {
 		op := pt.Op
@@ -879,8 +952,8 @@ func runC12(rec *kit.Recorder, active map[string]bool, c c12Case) error {
 		switch op.Kind {
 		case fsx.KRename, fsx.KRemove, fsx.KRemoveAll:
 		case fsx.KCreateTemp, fsx.KCreate, fsx.KOpenFile, fsx.KWriteFile:
-			class := op.Kind + filepath.Ext(strings.TrimSuffix(fsx.NormBase(op.Path), ".*.tmp"))
-			if seenClass[class] && !rec.Thorough() {
+			class := classOf(op)
+			if seenClass[class] && !rec.Thorough() && lastOfClass[class] != fmt.Sprintf("%s#%06d", pt.ID, pt.Nth) {
 				continue
 			}
 			seenClass[class] = true
@@ -920,6 +993,29 @@ func (j *c12Judge) failOnce(root, initial string, target fsx.Point) {
 		// the operation did not occur in this run (the order of work differs)
 		j.rec.Eval(key, false, append(lab, "fail-not-reached")...)
 		return
+	}
+	// the failure lies inside Finish's install phase: the failed operation is an
+	// install step itself or follows one that was executed
+	failedStep, _ := c12InstallStep(*failed)
+	inInstallPhase := failedStep
+	shardsWritten := 0
+	for _, op := range oplog {
+		if op.Seq >= failed.Seq || op.Failed || op.Err != "" {
+			continue
+		}
+		if step, _ := c12InstallStep(op); step {
+			inInstallPhase = true
+		}
+		if op.Kind == fsx.KCreateTemp && strings.HasSuffix(op.Path, ".zoekt.*.tmp") {
+			shardsWritten++
+		}
+	}
+	if failed.Kind == fsx.KCreateTemp && strings.HasSuffix(failed.Path, ".zoekt.*.tmp") {
+		if shardsWritten > 0 {
+			lab = append(lab, "fail:shard-temp-after-written-shards")
+		} else {
+			lab = append(lab, "fail:shard-temp-first")
+		}
 	}
 	if d, ok := runErr.(*kit.Discrepancy); ok && d.Kind == "panic" {
 		j.rec.Eval(key, j.nt, lab...)
@@ -983,15 +1079,113 @@ func (j *c12Judge) failOnce(root, initial string, target fsx.Point) {
 	case failed.Kind == fsx.KRename && strings.HasSuffix(failed.Path2, ".zoekt") && removedAfter:
 		// Finish deleted the old shard whose replacement could not be renamed into place
 		j.add(kit.FailKnown("C12-failed-rename-deletes-old", "mixed-index-after-error", "%s", detail))
-	case runErr != nil && j.total.installs+j.total.removals >= 2 && done.installs+done.removals >= 1 && done.installs+done.removals < j.total.installs+j.total.removals:
+	case runErr != nil && inInstallPhase && j.total.installs+j.total.removals >= 2 && done.installs+done.removals >= 1 && done.installs+done.removals < j.total.installs+j.total.removals:
 		// Finish reported the error after executing some but not all steps of a
 		// multi-file install (there is no roll-back): the same partial states as
 		// a kill in the install window. (The order constraint of c12InWindow is
 		// not applied: what Finish still removes after a failed step is either
 		// the defect recognised above or the sidecar of a shard it did replace.)
+		// Only a failure inside the install phase belongs to this class: when the
+		// failed operation precedes every install step (a shard or sidecar temp
+		// file that cannot be created) the build has failed before anything was
+		// installed and Finish must not install the part that did succeed.
 		j.add(kit.FailKnown("C12-multi-file-install-window", "mixed-index-after-error", "%s", detail))
 	default:
 		j.add(kit.Fail("mixed-index-after-error", "%s", detail))
+	}
+}
+
+// failingBuild judges a new build that cannot succeed without any injected
+// fault: the shard of group fg holds a document naming a branch the repository
+// does not have. The run must report an error, and the searcher must see the
+// old index at every crash point and at the end: there is no new index, and
+// shards of the failed run that were written successfully must not be
+// installed next to or over the old ones.
+func (j *c12Judge) failingBuild(root, initial string, fg int) {
+	c := j.c
+	work, err := c12Copy(root, initial, "ref")
+	if err != nil {
+		j.add(kit.Fail("harness", "%v", err))
+		return
+	}
+	var snaps []c12Snap
+	var snapErr error
+	fsx.Start(fsx.Config{SnapshotBefore: func(op fsx.Op) {
+		d := filepath.Join(root, fmt.Sprintf("snap%03d", len(snaps)))
+		if err := fsx.CopyDir(work, d); err != nil && snapErr == nil {
+			snapErr = err
+		}
+		snaps = append(snaps, c12Snap{op: op, dir: d, final: finalState(d)})
+	}})
+	runErr := kit.Guard(func() error { return c12RunNew(work, c) })
+	oplog := fsx.Stop()
+	if snapErr != nil {
+		j.add(kit.Fail("harness", "snapshot: %v", snapErr))
+		return
+	}
+	written := 0 // shard temp files of the failing run that were created
+	for _, op := range oplog {
+		if op.Kind == fsx.KCreateTemp && !op.Failed && op.Err == "" && strings.HasSuffix(op.Path, ".zoekt.*.tmp") {
+			written++
+		}
+	}
+	// non-trivial: the failed run had something it could have installed
+	j.nt = written >= 1 || c.Kind == "delta"
+	where := "failing-shard:earlier"
+	if fg == len(c.NewGroups)-1 {
+		where = "failing-shard:last"
+		if !c.NewGroups[fg][len(c.NewGroups[fg])-1].Big {
+			where = "failing-shard:last-flushed-by-finish"
+		}
+	}
+	labels := append([]string{"mode:failing-build", where, fmt.Sprintf("failing-build-shards-written:%d", written)}, j.labels...)
+	pts := fsx.Points(work, oplog)
+	what := fmt.Sprintf("a build whose shard %d of %d cannot be built (a document names branch %q, the repository has %v)", fg, len(c.NewGroups), c12Ghost, c.Branches)
+
+	if d, ok := runErr.(*kit.Discrepancy); ok && d.Kind == "panic" {
+		j.rec.Eval(j.ckey+"|failing|final", j.nt, labels...)
+		j.add(kit.Fail("panic", "%s: %s", what, d.Detail))
+		return
+	}
+	judge := func(key, when string, dir string, final map[string]string, lab []string) {
+		sig, err := j.observe(dir, final)
+		if err != nil {
+			j.rec.Eval(key, j.nt, lab...)
+			j.add(kit.Fail("load-error", "%s, %s: %v", what, when, err))
+			return
+		}
+		state := "old"
+		if sig.repoKey() != j.old.repoKey() {
+			state = "mixed"
+		}
+		j.rec.Eval(key, j.nt, append(lab, "failing-build-state:"+state)...)
+		if strings.Join(sig.Others, "\x01") != strings.Join(j.old.Others, "\x01") {
+			j.add(kit.Fail("other-repository-affected", "%s, %s: other repositories changed: %q, before %q", what, when, sig.Others, j.old.Others))
+			return
+		}
+		if state != "old" {
+			j.add(kit.Fail("mixed-index-after-error", "%s, %s: the searcher does not see the old index (and there is no new one): %s  [old: %s] (files %v; the run returned: %v)",
+				what, when, sig.brief(), j.old.brief(), kit.SortedKeys(final), runErr))
+		}
+	}
+	endFinal := finalState(work)
+	judge(j.ckey+"|failing|final", "after the run returned", work, endFinal, labels)
+	if runErr == nil {
+		j.add(kit.Fail("success-without-new-index", "%s returned nil from Add and Finish", what))
+	}
+	prev := finalState(initial)
+	var prevOp *fsx.Op
+	for i := range snaps {
+		s := &snaps[i]
+		if why := unexplainedFinalChange(prev, s.final, prevOp); why != "" {
+			j.add(kit.Fail("final-name-written-in-place", "%s, before %s: %s", what, s.op.Ident(), why))
+			break
+		}
+		prev = s.final
+		prevOp = &oplog[s.op.Seq]
+		judge(fmt.Sprintf("%s|failing|crash|%s#%d", j.ckey, pts[s.op.Seq].ID, pts[s.op.Seq].Nth),
+			fmt.Sprintf("kill before operation %d %s", s.op.Seq, s.op.Ident()), s.dir, s.final,
+			append([]string{"mode:failing-build-crash", "op:" + s.op.Kind}, labels[1:]...))
 	}
 }
 
@@ -1002,7 +1196,7 @@ func faultsSetup() {
 func TestVerif_C12(t *testing.T) {
 	faultsSetup()
 	rec := kit.Open(t, "C12",
-		"rapid-generated (old index, new build): old/new shard counts in {1,2,3}^2 forced by ShardMax, full builds, delta builds with file tombstones and branch-version changes, metadata-only delta builds, old shards with and without .meta sidecars, full builds replacing a member of a compound shard (ShardMerging), Parallelism 1 or 4. One evaluation = one judged crash point (directory snapshot before one intercepted mutating operation of the build) or one judged fail point (re-run with one rename/remove/temp-file creation failing with EIO). Non-trivial = old and new signature differ and the build has >= 2 crash points; distinct by hash of (case, operation identity).",
+		"rapid-generated (old index, new build): old/new shard counts in {1,2,3}^2 forced by ShardMax, full builds, delta builds with file tombstones and branch-version changes, metadata-only delta builds, old shards with and without .meta sidecars, full builds replacing a member of a compound shard (ShardMerging), Parallelism 1, 2 or 4; about a quarter of the builds with documents cannot succeed because one document of one new shard (mostly the last, the one Finish itself flushes) names a branch the repository does not have, so that the error arises where that shard is built (a background goroutine when Parallelism > 1) after earlier shards were written. One evaluation = one judged crash point (directory snapshot before one intercepted mutating operation of the build) or one judged fail point (re-run with one rename/remove/temp-file creation failing with EIO; quick tier: of the temp-file creations the first and the last shard / sidecar) or, for a build that cannot succeed, its final state and each of its crash points (error required, old index required throughout). Non-trivial = old and new signature differ and the build has >= 2 crash points (failing build: at least one of its shards was written, or it is a delta build with sidecars to install); distinct by hash of (case, operation identity).",
 		"only system calls made through package os in index/builder.go, index/tombstones.go, index/merge.go are crash/fail points; writes through *os.File are covered by the invariant that final-name files change only through intercepted renames",
 		"a kill is modelled as the directory content before a system call (no torn directory entries, no lost writes after rename: no fsync modelling)",
 		"signature = documents (name, content, branches, version of first branch) from Const(true)+Whole through search.NewDirectorySearcher, presence in List, per-shard branch versions and metadata via ReadMetadataPathAlive; index time and shard ids are not part of it",
